@@ -73,6 +73,10 @@ func (dist *CategoricalDistribution) ScalarType() ScalarType {
 }
 
 func (dist *CategoricalDistribution) LogPdf(r Scalar, x ConstScalar) error {
+  if v := x.GetFloat64(); v < 0.0 || v >= float64(dist.Theta.Dim()) || math.Floor(v) != v {
+    r.SetFloat64(math.Inf(-1))
+    return nil
+  }
   r.Set(dist.Theta.At(int(x.GetFloat64())))
   return nil
 }
@@ -86,8 +90,8 @@ func (dist *CategoricalDistribution) Pdf(r Scalar, x ConstScalar) error {
 }
 
 func (dist *CategoricalDistribution) LogCdf(r Scalar, x ConstScalar) error {
-  r.Reset()
-  for i := 0; i <= int(x.GetFloat64()); i++ {
+  r.SetFloat64(math.Inf(-1))
+  for i := 0; i <= int(math.Floor(x.GetFloat64())) && i < dist.Theta.Dim(); i++ {
     r.LogAdd(r, dist.Theta.At(i), dist.t)
   }
   return nil
